@@ -59,7 +59,7 @@ def run_one(kind, entry, props):
 
 def main():
     kind = sys.argv[1]
-    only = None; props = "all"; jobs = 8; outjson = None
+    only = None; props = "all"; jobs = 8; outjson = None; expect = None
     args = sys.argv[2:]
     i = 0
     while i < len(args):
@@ -67,6 +67,7 @@ def main():
         elif args[i] == "--props": props = args[i+1]; i += 2
         elif args[i] == "-j": jobs = int(args[i+1]); i += 2
         elif args[i] == "--json": outjson = args[i+1]; i += 2
+        elif args[i] == "--expect": expect = args[i+1]; i += 2  # only entries that expect this property
         else: i += 1
     entries = []
     for f in sorted(glob.glob(os.path.join(HERE, kind, "*.json"))):
@@ -74,6 +75,7 @@ def main():
         if isinstance(data, dict): data = [data]
         for e in data:
             if only and only not in e["id"]: continue
+            if expect and expect not in e.get("expect", []): continue
             entries.append(e)
     def work(e):
         p = props
